@@ -29,17 +29,17 @@ private theorem clampI_id {lo hi x : Int} (h1 : lo ≤ x) (h2 : x ≤ hi) : clam
     · omega
     · rfl
 
-/-- Every configuration whose factor is a number (finite or infinite) is clamped into the documented ranges.
-    (Full statement `∀ c` is false on the current tree for a NaN factor, see `C17_clamp_nan_counterexample`.) -/
-theorem C17_clamp_range_partial (L : Limits) (hL : L.ok) (c : Cfg)
-    (hf : c.factor ≠ .nan) (hd : ∀ n d, c.factor = .q n d → 0 < d) : InRange L (validate L c) := by
+/-- Any configuration is clamped into the documented ranges — NaN and ±Inf factors included — provided `Validate`
+    tests for NaN (the regenerated fact `nanClamped`, see `C17_limits_ok`). -/
+theorem C17_clamp_range (L : Limits) (hL : L.ok) (hn : L.nanClamped = true) (c : Cfg)
+    (hd : ∀ n d, c.factor = .q n d → 0 < d) : InRange L (validate L c) := by
   obtain ⟨h1, h2, h3, h4, _, _, _⟩ := hL
   unfold InRange validate
   have r1 := @clampI_range L.minRetries L.maxRetries c.maxRetries h1
   have r2 := @clampI_range L.minInitial L.maxInitial c.initial h2
   refine ⟨r1.1, r1.2, r2.1, r2.2, ?_, ?_, ?_⟩
   · cases hc : c.factor with
-    | nan => exact absurd hc hf
+    | nan => simp [clampF, hn, Factor.inRange]; omega
     | ninf => simp [clampF, Factor.inRange]; omega
     | pinf => simp [clampF, Factor.inRange]; omega
     | q n d =>
@@ -57,34 +57,36 @@ theorem C17_clamp_range_partial (L : Limits) (hL : L.ok) (c : Cfg)
     · omega
     · split <;> omega
 
-/-- NaN passes `Validate` untouched on the current tree (both comparisons are false). -/
-theorem C17_clamp_nan_counterexample :
-    ¬ InRange Mcp.Gen.retryLimits (validate Mcp.Gen.retryLimits ⟨2, 500000000, .nan, 8000000000⟩) := by
+/-- Witness for the bad region of the family: without the NaN test (the tree before the `fix:` commit) NaN passes
+    `Validate` untouched, because both comparisons are false. -/
+theorem C17_clamp_nan_witness :
+    ¬ InRange { Mcp.Gen.retryLimits with nanClamped := false }
+        (validate { Mcp.Gen.retryLimits with nanClamped := false } ⟨2, 500000000, .nan, 8000000000⟩) := by
   decide
 
-private theorem clampF_idem {lo hi : Int} (h : lo ≤ hi) (f : Factor) :
-    clampF lo hi (clampF lo hi f) = clampF lo hi f := by
+private theorem clampF_idem {lo hi : Int} (h : lo ≤ hi) (nc : Bool) (f : Factor) :
+    clampF lo hi nc (clampF lo hi nc f) = clampF lo hi nc f := by
+  have h1 : ¬ lo < lo * ((1 : Nat) : Int) := by omega
+  have h2 : ¬ lo > hi * ((1 : Nat) : Int) := by omega
+  have h3 : ¬ hi < lo * ((1 : Nat) : Int) := by omega
+  have h4 : ¬ hi > hi * ((1 : Nat) : Int) := by omega
   cases f with
-  | nan => rfl
+  | nan =>
+    cases nc
+    · rfl
+    · show clampF lo hi true (.q lo 1) = .q lo 1
+      simp only [clampF, h1, h2, ite_false]
   | ninf =>
-    show clampF lo hi (.q lo 1) = .q lo 1
-    have h1 : ¬ lo < lo * ((1 : Nat) : Int) := by omega
-    have h2 : ¬ lo > hi * ((1 : Nat) : Int) := by omega
+    show clampF lo hi nc (.q lo 1) = .q lo 1
     simp only [clampF, h1, h2, ite_false]
   | pinf =>
-    show clampF lo hi (.q hi 1) = .q hi 1
-    have h1 : ¬ hi < lo * ((1 : Nat) : Int) := by omega
-    have h2 : ¬ hi > hi * ((1 : Nat) : Int) := by omega
-    simp only [clampF, h1, h2, ite_false]
+    show clampF lo hi nc (.q hi 1) = .q hi 1
+    simp only [clampF, h3, h4, ite_false]
   | q n d =>
     by_cases a : n < lo * d
-    · have h1 : ¬ lo < lo * ((1 : Nat) : Int) := by omega
-      have h2 : ¬ lo > hi * ((1 : Nat) : Int) := by omega
-      simp only [clampF, a, ite_true, h1, h2, ite_false]
+    · simp only [clampF, a, ite_true, h1, h2, ite_false]
     · by_cases b : n > hi * d
-      · have h1 : ¬ hi < lo * ((1 : Nat) : Int) := by omega
-        have h2 : ¬ hi > hi * ((1 : Nat) : Int) := by omega
-        simp only [clampF, a, b, ite_true, h1, h2, ite_false]
+      · simp only [clampF, a, b, ite_true, h3, h4, ite_false]
       · simp only [clampF, a, b, ite_false]
 
 private theorem clampMB_idem {ib mm x : Int} (h : ib ≤ mm) :
@@ -111,8 +113,8 @@ theorem C17_clamp_idempotent (L : Limits) (hL : L.ok) (c : Cfg) :
   congr 1
   exact clampMB_idem (by omega)
 
-/-- The regenerated limits satisfy the side conditions of the two theorems above. -/
-theorem C17_limits_ok : Mcp.Gen.retryLimits.ok := by decide
+/-- The regenerated limits satisfy the side conditions of the two theorems above, and the current source tests for NaN. -/
+theorem C17_limits_ok : Mcp.Gen.retryLimits.ok ∧ Mcp.Gen.retryLimits.nanClamped = true := by decide
 
 /-- …and they are the documented ones (0-10 retries, 1ms-30s initial, factor 1-10, max ≤ 5 minutes). -/
 theorem C17_limits_documented :
@@ -354,7 +356,17 @@ theorem C17_wait_k_partial (R oz) (c : Cfg) (script cancelAt) (n : Int) (d : Nat
       · exact Int.pow_nonneg (Int.natCast_nonneg d)
     split <;> omega
 
-/-- D28: on the current tree (`oz = true`) a legal configuration — 9.3 s initial, factor 10, 10 retries —
+/-- The k-th wait, full statement for the code as it is now: the regenerated fact says the cap is applied before
+    the float → integer conversion, so no overflow hypothesis is needed. -/
+theorem C17_wait_k (R) (c : Cfg) (script cancelAt) (n : Int) (d : Nat)
+    (hf : c.factor = .q n d) (hn : 0 ≤ n) (hi : 0 ≤ c.initial) (hmb : 0 ≤ c.maxBackoff)
+    (k : Nat) (hk : k < (execute R Mcp.Gen.retryOverflowZero (some c) script cancelAt).waits.length) :
+    (execute R Mcp.Gen.retryOverflowZero (some c) script cancelAt).waits[k] =
+      min (c.initial * n ^ k / (d : Int) ^ k) c.maxBackoff :=
+  C17_wait_k_partial R _ c script cancelAt n d hf hn hi hmb k hk
+    (fun h => absurd h (by decide : ¬ Mcp.Gen.retryOverflowZero = true))
+
+/-- D28 witness for the bad region of the family (`oz = true`, the tree before the `fix:` commit) a legal configuration — 9.3 s initial, factor 10, 10 retries —
     makes the 10th wait collapse to zero instead of the 5-minute cap. -/
 theorem C17_wait_overflow_counterexample :
     let c : Cfg := ⟨10, 9300000000, .q 10 1, 300000000000⟩
